@@ -46,7 +46,7 @@ type Config struct {
 	// RChan: how the renderer options reach the core HTML renderer: 0 goldmark.WithRendererOptions (by option name,
 	// through SetOption); 1 as functional options of html.NewRenderer, installed with goldmark.WithRenderer(
 	// renderer.NewRenderer(renderer.WithNodeRenderers(...))) - the other documented way. Only for configurations
-	// whose extension renderers do not consult these switches themselves (no TaskList, no Footnote).
+	// whose extension renderers do not consult these switches themselves (no TaskList, no Footnote, no Table).
 	RChan int
 }
 
@@ -105,7 +105,7 @@ func (c Config) String() string {
 	if c.FnOpt != 0 && c.Footnote {
 		p = append(p, "fno"+string(rune('0'+c.FnOpt)))
 	}
-	if c.RChan != 0 && !c.HasTask() && !c.Footnote {
+	if c.RChan != 0 && c.rchanOK() {
 		p = append(p, "rch"+string(rune('0'+c.RChan)))
 	}
 	if c.LinkProto != 0 && c.Linkify && !c.GFM {
@@ -310,9 +310,13 @@ func (c Config) RendererOptions() []renderer.Option {
 	return o
 }
 
+// rchanOK: the extension renderers that consult the HTML switches themselves (task list <input>, footnote <hr>,
+// the table's default alignment method) only learn of them through renderer options.
+func (c Config) rchanOK() bool { return !c.HasTask() && !c.Footnote && !c.HasTable() }
+
 // Fresh builds a brand-new instance.
 func (c Config) Fresh() goldmark.Markdown {
-	if c.RChan == 1 && !c.HasTask() && !c.Footnote {
+	if c.RChan == 1 && c.rchanOK() {
 		var ho []html.Option
 		if c.Unsafe {
 			ho = append(ho, html.WithUnsafe())
@@ -378,7 +382,7 @@ var Representative = []Config{
 	{GFM: true, Footnote: true, FnPrefix: 4, DefList: true},
 	{Footnote: true, FnOpt: 1, Table: true, Linkify: true, LinkProto: 2},
 	{RChan: 1, XHTML: true, HardWraps: true},
-	{RChan: 1, Unsafe: true, XHTML: true, Table: true, Strike: true, DefList: true, Typo: true, CJK: 1, AutoID: true},
+	{RChan: 1, Unsafe: true, XHTML: true, Strike: true, DefList: true, Typo: true, CJK: 1, AutoID: true},
 	{Footnote: true, FnOpt: 2, FnPrefix: 1, XHTML: true, Linkify: true, LinkProto: 1, Strike: true},
 }
 
@@ -450,7 +454,7 @@ func DrawConfig(t *rapid.T, o ConfigOpts) Config {
 	if !c.Linkify || c.GFM {
 		c.LinkProto = 0
 	}
-	if c.HasTask() || c.Footnote {
+	if !c.rchanOK() {
 		c.RChan = 0
 	}
 	if !c.Typo {
